@@ -107,6 +107,8 @@ func runC02(c *Ctx) {
 	// ---- R02i / R02j
 	checkNameIdentity(c)
 	sidePurityLint(c)
+	c.Rule("R02k", ruleTextMayWrapSymmetric, 5)
+	checkMayWrapSymmetric(c, "R02k")
 
 	// ---- R02h
 	checkConditionalChanges(c)
